@@ -54,6 +54,7 @@ def programs(tier: str):  # noqa: C901
     yield {"special": "pair-typevars"}
     for when in ("before", "after"):
         yield {"special": "forward-refs", "other_defined": when}
+    yield {"special": "nested-missing"}
     for leaf in ak.LEAF_NAMES:
         yield {"host": leaf}
     for t in ak.terms(2, ak.LEAF_NAMES):
@@ -167,6 +168,52 @@ def execute(program, ch: Chooser) -> Result:  # noqa: C901, PLR0912, PLR0915
     viols: list[dict] = []
     stats = {ak.Y: 0, ak.N: 0, ak.U: 0, "accepted": 0, "rejected": 0}
     steps = 0
+    if program.get("special") == "nested-missing":
+        # an attribute without default whose annotation admits MISSING only one union / alias /
+        # type-variable level down: leaving it out conforms (it then holds MISSING)
+        import typing
+
+        from haiway import MISSING, Missing
+
+        MaybeInt = typing.TypeAliasType("MaybeInt", int | Missing)
+        _TM = typing.TypeVar("TM")
+        MaybeT = typing.TypeAliasType("MaybeT", _TM | Missing, type_params=(_TM,))
+        cases = []
+        try:
+            cases.append(("alias-in-union", make_class({"x": MaybeInt | None})))
+            cases.append(("generic-alias-in-union", make_class({"x": MaybeT[int] | None})))
+            cases.append(("flat", make_class({"x": int | Missing})))
+            cases.append(("plain-alias", make_class({"x": MaybeInt})))
+
+            class BoxM[T](State):
+                content: T | None
+
+            cases.append(("type-variable", BoxM[int | Missing]))
+        except Exception as exc:  # noqa: BLE001
+            viols.append(viol("declaration", "nested-missing", "declares", f"{type(exc).__name__}: {exc}"[:160]))
+            return Result("special/nested-missing-decl-fails", True, viols, program, steps=1)
+        for name, cls_ in cases:
+            attr = "content" if name == "type-variable" else "x"
+            for how, kw in (("omitted", {}), ("explicit-MISSING", {attr: MISSING}), ("value", {attr: 3}), ("none", {attr: None})):
+                if how == "none" and name in ("flat", "plain-alias"):
+                    continue
+                steps += 1
+                try:
+                    inst = cls_(**kw)
+                    stored = getattr(inst, attr)
+                    want = MISSING if how in ("omitted", "explicit-MISSING") else kw[attr]
+                    if stored is not want:
+                        viols.append(viol("faithful", f"nested-missing/{name}/{how}", repr(want), repr(stored)))
+                    stats["accepted"] += 1
+                except Exception as exc:  # noqa: BLE001
+                    viols.append(viol("accepts-conforming", f"nested-missing/{name}/{how}", "construction succeeds", f"{type(exc).__name__}: {str(exc)[:100]}"))
+            steps += 1
+            try:
+                cls_(**{attr: "not-an-int"})
+                viols.append(viol("rejects-nonconforming", f"nested-missing/{name}", "raises", "accepted a str"))
+            except Exception:  # noqa: BLE001
+                stats["rejected"] += 1
+        return Result("special/nested-missing", True, viols, program, steps=steps)
     if program.get("special") == "forward-refs":
         # annotations given as strings resolve in the namespace of the class' own module,
         # whatever same-named classes were defined elsewhere before
